@@ -356,6 +356,8 @@ func applyModel(st *model.State, op *Op, impl *model.Res, now time.Time, lastID 
 	n := ns(op)
 	fo := model.FindOpts{Sort: op.S.doc(), Skip: op.Skip, Limit: op.Limit, Proj: op.P.doc()}
 	switch op.K {
+	case "e.expire":
+		return model.Res{}
 	case "rmw":
 		r1 := st.FindOne(n, op.D.doc(), model.FindOpts{})
 		cnt := int32(0)
